@@ -596,6 +596,79 @@ def gen_cases(rng, tier):
         else:
             a["pdrs"][rng.randrange(2)]["far"] = 77
         sc("refused/" + which, cfg, [a])
+    # 6. identifiers the control plane chooses must never reach an index: PDR IDs over the whole 16-bit range and QER IDs over the 32-bit
+    #    range (beyond every array size), the sessions deleted, then enough establishments to pop EVERY cell of the pools (a foreign value
+    #    put into a pool by the deletion is handed out whatever order the set iterates in) - every counter / meter write is judged
+    big_pdr = [1024, 1025, 2001, 2002, 4096, 32767, 32768, 40000, 65534, 65535]
+    big_qer = [1024, 2001, 65535, 65536, 70000, 1 << 31, M32]
+    for rep in range(6 * scale):
+        # (a) shrunk arrays: counters
+        n = rng.choice([4, 6, 8])
+        sizes = {"PreQosPipe.pre_qos_counter": n, "PostQosPipe.post_qos_counter": n, "PreQosPipe.app_meter": 64, "PreQosPipe.session_meter": 64}
+        cfg = rand_cfg(rng, sizes)
+        ops = []
+        nsess = rng.choice([1, 2])
+        for s in range(1, nsess + 1):
+            a = session_rules(rng, cfg, s, ip(10, 250, 3, s), n_qers=rng.choice([0, 1, 2]), far_action=2, prec=rng.randrange(65535))
+            ids = rng.sample(big_pdr, 2) if rng.random() < 0.8 else [rng.randrange(n, 65536), rng.randrange(n, 65536)]
+            for p, i in zip(a["pdrs"], ids):
+                p["id"] = i
+            a["pdrs"][0]["teid"] = 0x5000 + s
+            ops.append(a)
+        for s in rng.sample(range(1, nsess + 1), nsess):
+            ops.append({"op": "del", "sess": s})
+        for s in range(10, 10 + n // 2 + nsess + 2):
+            a = session_rules(rng, cfg, s, ip(10, 250, 4, s), n_qers=0, far_action=2, af_shape="empty", prec=100)
+            a["pdrs"][0]["teid"] = 0x6000 + s
+            ops.append(a)
+        sc("bigids/counter", cfg, ops)
+        # (b) shrunk arrays: meter cells (QER IDs beyond the arrays; first the session-meter pool is drained, then the application pool)
+        n = rng.choice([4, 6])
+        sizes = {"PreQosPipe.pre_qos_counter": 128, "PostQosPipe.post_qos_counter": 128, "PreQosPipe.app_meter": n, "PreQosPipe.session_meter": n}
+        cfg = rand_cfg(rng, sizes)
+        ops = []
+        a = session_rules(rng, cfg, 1, ip(10, 250, 5, 1), n_qers=2, far_action=2, prec=rng.randrange(65535))
+        qa, qs = rng.sample(big_qer, 2)
+        a["qers"][0]["id"], a["qers"][1]["id"] = qa, qs
+        for p in a["pdrs"]:
+            p["qers"] = [qa, qs]
+        if rng.random() < 0.5:
+            b = session_rules(rng, cfg, 2, ip(10, 250, 5, 2), n_qers=1, far_action=2, prec=rng.randrange(65535))
+            b["qers"][0]["id"] = rng.choice(big_qer)
+            for p in b["pdrs"]:
+                p["qers"] = [b["qers"][0]["id"]]
+            b["pdrs"][0]["teid"] = 0x5002
+            ops += [a, b, {"op": "del", "sess": 2}, {"op": "del", "sess": 1}]
+        else:
+            ops += [a, {"op": "del", "sess": 1}]
+        for s in range(10, 10 + n // 2 + 2):
+            x = session_rules(rng, cfg, s, ip(10, 250, 6, s), n_qers=2, far_action=2, af_shape="empty", prec=100)
+            x["pdrs"][0]["teid"] = 0x6000 + s
+            ops.append(x)
+        for s in range(40, 40 + n + 2):
+            x = session_rules(rng, cfg, s, ip(10, 250, 6, s), n_qers=1, far_action=2, af_shape="empty", prec=100)
+            x["pdrs"][0]["teid"] = 0x6000 + s
+            ops.append(x)
+        sc("bigids/meter", cfg, ops)
+    # (c) the arrays as shipped (1024 counter cells): PDR IDs >= 1024, deletion, then 16-PDR sessions until the pool is empty.  Judged by the
+    #     Python monitor on every update; only the first operations also feed the Coq correspondence (the batches repeat)
+    cfg = rand_cfg(rng)
+    cfg["access"] = "198.18.0.1/32"
+    ops = []
+    for s, ids in ((1, (2001, 2002)), (2, (65535, 1024))):
+        a = session_rules(rng, cfg, s, ip(10, 250, 7, s), n_qers=0, far_action=2, af_shape="empty", prec=100)
+        a["pdrs"][0]["id"], a["pdrs"][1]["id"] = ids
+        a["pdrs"][0]["teid"] = 0x5000 + s
+        a["pdrs"][0]["tun_ip"] = cidr(cfg["access"])[0]
+        ops.append(a)
+    ops += [{"op": "del", "sess": 2}, {"op": "del", "sess": 1}]
+    for s in range(100, 100 + 1024 // 16 + 2):
+        a = session_rules(rng, cfg, s, ip(10, 250, 8 + s // 200, s % 200 + 1), n_qers=0, far_action=2, af_shape="empty", prec=100)
+        a["pdrs"][0]["tun_ip"] = cidr(cfg["access"])[0]
+        ul = a["pdrs"][0]
+        a["pdrs"] = [a["pdrs"][1]] + [dict(ul, id=10 + k, teid=(s << 8) + k, af=dict(ul["af"])) for k in range(15)]
+        ops.append(a)
+    cases.append({"cls": "bigids/full-size-counter", "cfg": cfg, "ops": ops, "coq_ops": 6})
     return cases
 
 
@@ -779,7 +852,7 @@ def run(tier, seed, replay=None):
                     if u.get("action_name"):
                         bump("action:" + u["action_name"])
                     key = (skey, g_update(u))
-                    if key not in upd_cases:
+                    if key not in upd_cases and (feed_coq[0] or bad):
                         upd_cases[key] = [not bad, {"scenario": c, "where": where, "update": u}]
                     for sig, msg in bad:
                         if sig == "PreQosPipe.applications:priority-zero":
@@ -788,6 +861,7 @@ def run(tier, seed, replay=None):
                             sig += ":precedence-65535" if owners and all(p["prec"] == 65535 for p in owners) else ":precedence-other"
                         ck.fail(sig, f"invalid P4Runtime write ({where}): {msg}", {"scenario": c, "where": where, "update": u})
 
+        feed_coq = [True]
         judge(o["startup"], [], "start-up")
         pairs, err = segment(ag, {"op": "restart"}, {"writes": o["startup"], "state": {}}, None)
         for ev, ups in pairs:
@@ -799,13 +873,14 @@ def run(tier, seed, replay=None):
                 ck.fail("panic:" + oo["panic"][:60], f"the plug-in panicked at {where}: {oo['panic']}", {"scenario": c, "op": i})
                 break
             ctx = op.get("pdrs") or (ag.sessions.get(op.get("sess"), {}).get("pdrs", []))
+            feed_coq[0] = i < c.get("coq_ops", 1 << 30)
             judge(oo["writes"], ctx, where)
             accepted = (op["op"] in ("add", "mod", "del") and oo["cause"] == ACCEPTED) or (op["op"] == "slice" and not oo.get("err")) \
                 or (op["op"] == "restart" and not oo.get("err"))
             bump(f"op:{op['op']}:{'accepted' if accepted else 'refused'}")
             if accepted:
                 pairs, err = segment(ag, op, oo, before)
-                for ev, ups in pairs:
+                for ev, ups in (pairs if feed_coq[0] else []):
                     batch_cases.setdefault((ev, glist([g_update(u) for u in ups])), {"scenario": c, "where": where})
                 if err:
                     seg_errors.append({"scenario": c, "where": where, "error": err})
